@@ -186,12 +186,57 @@ theorem cg_no_loops_no_dups {g : GridShape} {h : Rat} {uv ug : Sys} {envs : List
     (hok : coarsegrainGrid g h uv ug envs im = .ok sp) :
     (∀ e ∈ sp.edges, e.i < e.j) ∧ (sp.edges.map edgeKey).Nodup := cg_edges_ok hok
 
-/- NOT PROVED for all inputs (statements kept in full; each is checked on every generated case by the oracle on the real
-   code and by the correspondence of the model, and on the concrete instances below by kernel evaluation):
-   * `cg_edge_iff`      : edge (g,g') ↔ g ≠ g' ∧ ∃ members sharing a face;  `cg_surface` = (#shared faces)·h²;
-                          `cg_distance²` = ‖centroid g − centroid g'‖²
-   * `identity_map`     : coarsegrain id = gridToGraph on reflecting grids
- -/
+/-- `cg_edge_iff`: the ordered pair `c = (a, b)` is an edge of the coarse graph exactly when some fine edge (= pair of cells
+sharing a face, see `fine_edges_are_shared_faces`) joins a cell of group `a` and a cell of group `b`, the two groups being
+different and retained (`Contributes`) -/
+theorem cg_edge_iff {g : GridShape} {h : Rat} {uv ug : Sys} {envs : List Int} {im : List (Option Int)} {sp : CgSpace}
+    (hok : coarsegrainGrid g h uv ug envs im = .ok sp) (c : Int × Int) :
+    c ∈ sp.edges.map edgeKey ↔ ∃ e ∈ (gridToGraph g h envs).edges, Contributes (im.filterMap id) e c :=
+  cg_edge_iff_aux hok c
+
+/-- `cg_surface`: contact surface = (number of shared faces between the two groups) × face area `h²` -/
+theorem cg_surface {g : GridShape} {h : Rat} {uv ug : Sys} {envs : List Int} {im : List (Option Int)} {sp : CgSpace}
+    (hok : coarsegrainGrid g h uv ug envs im = .ok sp) (o : GEdge) (ho : o ∈ sp.edges) :
+    o.surface = ((gridToGraph g h envs).edges.countP (fun e => decide (Contributes (im.filterMap id) e (edgeKey o))) : Rat) * (h * h) :=
+  cg_surface_aux hok o ho
+
+/-- `cg_distance²`: squared distance of an edge = squared Euclidean distance of the two centroids … -/
+theorem cg_distance {g : GridShape} {h : Rat} {uv ug : Sys} {envs : List Int} {im : List (Option Int)} {sp : CgSpace}
+    (hok : coarsegrainGrid g h uv ug envs im = .ok sp) (o : GEdge) (ho : o ∈ sp.edges) :
+    o.dist = sq (sp.cx.getD o.i.toNat 0 - sp.cx.getD o.j.toNat 0) + sq (sp.cy.getD o.i.toNat 0 - sp.cy.getD o.j.toNat 0)
+      + sq (sp.cz.getD o.i.toNat 0 - sp.cz.getD o.j.toNat 0) := cg_distance_aux hok o ho
+
+/-- … where the centroid of group `k` is the mean of its members' positions `(x·h, y·h, z·h)`:
+(sum over the member cells) / (number of member cells) (`slotSum k pairs` = sum of the values paired with group `k`) -/
+theorem cg_centroid {g : GridShape} {h : Rat} {uv ug : Sys} {envs : List Int} {im : List (Option Int)} {sp : CgSpace}
+    (hok : coarsegrainGrid g h uv ug envs im = .ok sp) (k : Nat) (hk : k < nGroups im) :
+    sp.cx[k]? = some (slotSum k ((im.filterMap id).zip ((gridCoords g).map fun c => (c.1 : Rat) * h)) /
+                      slotSum k ((im.filterMap id).map fun gI => (gI, (1 : Rat)))) ∧
+    sp.cy[k]? = some (slotSum k ((im.filterMap id).zip ((gridCoords g).map fun c => (c.2.1 : Rat) * h)) /
+                      slotSum k ((im.filterMap id).map fun gI => (gI, (1 : Rat)))) ∧
+    sp.cz[k]? = some (slotSum k ((im.filterMap id).zip ((gridCoords g).map fun c => (c.2.2 : Rat) * h)) /
+                      slotSum k ((im.filterMap id).map fun gI => (gI, (1 : Rat)))) := cg_centroid_aux hok k hk
+
+/-- the fine edges of a reflecting grid are exactly the pairs of cells that share a face (neighbours along +x, +y or +z),
+each once, with surface `h²` and length `h`; `gci` is the grid's own index formula (`x + y·w + z·w·h`, generated) -/
+theorem fine_edges_are_shared_faces (g : GridShape) (h : Rat) (envs : List Int) (hrefl : (g.px || g.py || g.pz) = false) (e : GEdge) :
+    e ∈ (gridToGraph g h envs).edges ↔ ∃ x y z, x < g.w ∧ y < g.h ∧ z < g.d ∧
+      ((x + 1 < g.w ∧ e = ⟨gci g x y z, gci g (x + 1) y z, h * h, h⟩) ∨
+       (y + 1 < g.h ∧ e = ⟨gci g x y z, gci g x (y + 1) z, h * h, h⟩) ∨
+       (z + 1 < g.d ∧ e = ⟨gci g x y z, gci g x y (z + 1), h * h, h⟩)) := mem_fine_edges g h envs hrefl e
+
+theorem cell_index_formula (g : GridShape) (x y z : Nat) (hx : x < g.w) (hy : y < g.h) (hz : z < g.d) :
+    gci g x y z = ((x + y * g.w + z * g.w * g.h : Nat) : Int) := gci_inside g x y z hx hy hz
+
+/- NOT PROVED for all inputs (statement kept in full; checked on every generated identity-map case by the correspondence
+   and the oracle, on the real engines by the harness, and on the concrete instance below by kernel evaluation):
+   * `identity_map` : on a reflecting grid, `coarsegrainGrid g h … (identity map)` has the nodes of `gridToGraph g h envs`
+     (volumes `h³` in the grid's units, same environments) and the same edge list with surface `h²` and distance² `h²`.
+   What is missing: that the fine edges have pairwise distinct ordered keys (so the merge branch of the edge loop is never
+   taken) and that the centroid of a singleton group is the cell's own position (indexing of the coordinate list by the linear
+   index).  The general theorems above already give, for the identity map: same edge *set* (`cg_edge_iff` with singleton
+   groups), surface = (number of fine edges between the two cells)·h² (`cg_surface`), volumes (`cg_volume`), environments
+   (`cg_env`), states and flags (`cg_group_amount`, `cg_chem_any`). -/
 
 /-! ## concrete instances (kernel evaluation of the model): every clause of the property on a 4×1×1 and a 2×2×1 grid -/
 
